@@ -20,6 +20,11 @@
 (*                                                                         *)
 (* Property  Correct: when all threads are done every pixel carries the    *)
 (* label of the maximum (the sequential result), for every interleaving.   *)
+(* RangesTile: the ranges [Lo(t), Hi(t)) tile 0..N-1 - every pixel is      *)
+(* visited by exactly one thread - for any NT, also NT > N where some      *)
+(* threads own an empty range (configurations N=3 NT=5, N=4 NT=6).  The    *)
+(* hooks build logs each thread's lo / hi; the harness requires one log    *)
+(* per requested thread and notes whether they equal Lo / Hi.              *)
 (* Memory model: sequential consistency (the repair adds flushes).         *)
 (***************************************************************************)
 EXTENDS Integers, Sequences, TLC
@@ -199,4 +204,7 @@ Termination == <>(\A self \in ProcSet: pc[self] = "Done")
 Correct == (\A t \in Threads : pc[t] = "Done") => (\A x \in 0..(N - 1) : lout[x] = 1)
 \* a pixel flagged done always carries its final label (holds only for the repaired ordering)
 FlagImpliesLabel == \A x \in 0..(N - 1) : l[x] = 0 => lout[x] = 1
+\* every pixel belongs to the range of exactly one thread (constant-level: depends on N and NT only)
+RangesTile == \A x \in 0..(N - 1) : \E t \in Threads : /\ Lo(t) <= x /\ x < Hi(t)
+                                                        /\ \A u \in Threads \ {t} : ~(Lo(u) <= x /\ x < Hi(u))
 =============================================================================
